@@ -18,11 +18,11 @@ pub fn prop() -> Prop {
             "the geometric clause is only asserted for non-degenerate shapes (both sides > 0), as stated",
         ],
         subs: vec![
-            Sub::tape("rectangle", 16, 100_000, 5_000_000, |d, cx| run(d, cx, 0)),
-            Sub::tape("circle", 16, 100_000, 5_000_000, |d, cx| run(d, cx, 1)),
-            Sub::tape("ellipse", 16, 100_000, 5_000_000, |d, cx| run(d, cx, 2)),
-            Sub::tape("rounded_rectangle", 28, 140_000, 7_000_000, |d, cx| run(d, cx, 3)),
-            Sub::tape("large", 28, 3_000, 150_000, |d, cx| { let k = d.u(0, 3); run(d, cx, k + 100) }),
+            Sub::tape("rectangle", 40, 100_000, 5_000_000, |d, cx| run(d, cx, 0)),
+            Sub::tape("circle", 40, 100_000, 5_000_000, |d, cx| run(d, cx, 1)),
+            Sub::tape("ellipse", 40, 100_000, 5_000_000, |d, cx| run(d, cx, 2)),
+            Sub::tape("rounded_rectangle", 72, 140_000, 7_000_000, |d, cx| run(d, cx, 3)),
+            Sub::tape("large", 72, 3_000, 150_000, |d, cx| { let k = d.u(0, 3); run(d, cx, k + 100) }),
         ],
     }
 }
@@ -134,6 +134,19 @@ fn run_c<C: Col>(d: &mut Dec, cx: &mut Cx, kind: u32) -> Res {
         StrokeAlignment::Center => "center",
         StrokeAlignment::Outside => "outside",
     });
+    if let Shape::RRect(rr) = &shape {
+        // corners of one side pair with the same height and different widths, all of them at most as wide
+        // as the inside part of the stroke but taller than it: the fill area's corners are equal while
+        // the stroke area is asymmetric in rows that contain fill
+        let c = rr.confine_radii().corners;
+        let inside = match style.stroke_alignment {
+            StrokeAlignment::Inside => style.stroke_width,
+            StrokeAlignment::Center => (style.stroke_width + 1) / 2,
+            StrokeAlignment::Outside => 0,
+        };
+        let pair = |a: Size, b: Size| a.height == b.height && a.width != b.width && a.width.max(b.width) <= inside && a.height > inside;
+        cx.count("rrect_equal_height_unequal_width_corners_under_the_stroke", u64::from(pair(c.top_left, c.top_right) || pair(c.bottom_left, c.bottom_right)));
+    }
     let out = match &shape {
         Shape::Rect(p) => check_closed!("rectangle", *p, style)?,
         Shape::Circle(p) => check_closed!("circle", *p, style)?,
